@@ -140,7 +140,12 @@ func (n ambassador) handleError(err error) (bool, error) {
 		return false, err
 	}
 
-	// TODO: other database/storage errors are also considered recoverable. VCR only uses go-leia for storage,
+	// Recoverable: the credential or revocation is fine, but writing it to the store failed.
+	if errors.Is(err, types.ErrStorage) {
+		return false, err
+	}
+
+	// TODO: other database/storage errors (reading) are also considered recoverable. VCR only uses go-leia for storage,
 	//  which doesn't define a single error to recognize storage-related errors.
 	//  This means go-leia error, which should be recoverable, can't be recognized as being recoverable.
 	//  If they occur and cause inconsistencies, they can be fixed using `Reprocess(application/vc+json)`.
